@@ -416,19 +416,12 @@ package common
 //@     invariant forall i :: {indicesBounded[i]} 0 <= i && i <= rangeindex && is_active(indicesBounded[i], epoch) ==> act_count(indicesBounded, epoch, i) < len(out) && out[act_count(indicesBounded, epoch, i)] == indicesBounded[i].Index
 
 // ---------------------------------------------------------------- proposer sampling (C07)
-// compute_shuffled_index as an uninterpreted function here (C06 is about PermuteIndex itself)
+// compute_shuffled_index: shuf_idx, defined in the swap-or-not section below (C06)
 //@ sort Root32 = Root
 //@ sort VIdxsT = []ValidatorIndex
 //@ sort Bytes8 = [8]byte
-//@ ufun shuf_idx(int, int, int, Root32) int
 //@ ufun v_eb_err(ValI) bool
 //@ ufun v_eb(ValI) int
-
-//@ func PermuteIndex(rounds, index, listSize, seed) r
-//@   trusted
-//@   opt noalloc
-//@   ensures r == shuf_idx(rounds, index, listSize, seed)
-//@   ensures index < listSize ==> r < listSize
 
 //@ func (v Validator) EffectiveBalance() (r, err)
 //@   trusted
@@ -453,6 +446,7 @@ package common
 //@ func ComputeProposerIndex(spec, registry, active, seed) (r, err)
 //@   property C07
 //@   requires spec != nil && registry != nil
+//@   requires len(active) <= 1099511627776
 //@   requires balances: spec.MAX_EFFECTIVE_BALANCE < 72057594037927936 && (forall v ValI :: {v_eb(v)} v_eb(v) < 72057594037927936)
 //@   ensures empty: len(active) == 0 ==> err != nil
 //@   ensures first: err == nil ==> prop_scan(spec.MAX_EFFECTIVE_BALANCE, registry, spec.SHUFFLE_ROUND_COUNT % 256, active, seed, 0) >= 0 && r == prop_cand(spec.SHUFFLE_ROUND_COUNT % 256, active, seed, prop_scan(spec.MAX_EFFECTIVE_BALANCE, registry, spec.SHUFFLE_ROUND_COUNT % 256, active, seed, 0))
@@ -517,6 +511,78 @@ package common
 //@   ensures surfaced: !old(ctx_seen) && ctx_seen ==> err != nil
 //@   ensures polled: err == nil && ctx_t > old(ctx_t) ==> !ctx_cancelled(ctx, old(ctx_t))
 //@   ensures time: ctx_t >= old(ctx_t)
+
+// ---------------------------------------------------------------- swap-or-not shuffle, per index (C06)
+// The specification's compute_shuffled_index, round by round:
+//   pivot    = bytes_to_uint64(hash(seed ++ [round])[0:8]) mod n
+//   flip     = (pivot + n - index) mod n
+//   position = max(index, flip)
+//   bit      = bit (position mod 8) of byte ((position mod 256) / 8) of hash(seed ++ [round] ++ uint32_le(position / 256))
+//   index'   = flip if bit else index
+// sh_fwd(k): rounds 0 .. k-1 applied in order (compute_shuffled_index = sh_fwd(SHUFFLE_ROUND_COUNT));
+// sh_bwd(k): rounds k-1 .. 0 applied in that order (the inverse).
+//@ sort Bytes1 = [1]byte
+//@ sort Bytes4 = [4]byte
+//@ define le32(x int) Bytes4 = Bytes4(x % 256, (x / 256) % 256, (x / 65536) % 256, (x / 16777216) % 256)
+//@ define le64val(b Root32) int = b[0] + 256 * b[1] + 65536 * b[2] + 16777216 * b[3] + 4294967296 * b[4] + 1099511627776 * b[5] + 281474976710656 * b[6] + 72057594037927936 * b[7]
+//@ ufun sh_pivot(Root32, int, int) int
+//@ axiom sh_pivot_def [manual]: forall seed Root32, r int, n int :: {sh_pivot(seed, r, n)} n > 0 ==> sh_pivot(seed, r, n) == le64val(sha256(cat(seed, Bytes1(r)))) % n
+//@ ufun sh_bit(Root32, int, int) int
+//@ axiom sh_bit_def [manual]: forall seed Root32, r int, pos int :: {sh_bit(seed, r, pos)} pos >= 0 ==> sh_bit(seed, r, pos) == (sha256(cat(seed, Bytes1(r), le32(pos / 256)))[(pos % 256) / 8] / pow2(pos % 8)) % 2
+//@ define sh_flip(seed Root32, r int, n int, i int) int = (sh_pivot(seed, r, n) + n - i) % n
+//@ ufun sh_round(Root32, int, int, int) int
+//@ axiom sh_round_def: forall seed Root32, r int, n int, i int :: {sh_round(seed, r, n, i)} sh_round(seed, r, n, i) == ite(sh_bit(seed, r, max(i, sh_flip(seed, r, n, i))) == 1, sh_flip(seed, r, n, i), i)
+// (uninterpreted with defining axioms that unfold only at round numbers marked by ktrig: no unbounded unfolding)
+//@ ufun sh_fwd(Root32, int, int, int) int
+//@ ufun sh_bwd(Root32, int, int, int) int
+//@ axiom sh_fwd_def: forall seed Root32, n int, i int, k int :: {sh_fwd(seed, n, i, k), ktrig(k)} sh_fwd(seed, n, i, k) == ite(k <= 0, i, sh_round(seed, k - 1, n, sh_fwd(seed, n, i, k - 1)))
+//@ axiom sh_bwd_def: forall seed Root32, n int, x int, k int :: {sh_bwd(seed, n, x, k), ktrig(k)} sh_bwd(seed, n, x, k) == ite(k <= 0, x, sh_bwd(seed, n, sh_round(seed, k - 1, n, x), k - 1))
+//@ define shuf_idx(rounds int, index int, n int, seed Root32) int = sh_fwd(seed, n, index, rounds)
+
+// one round maps [0, n) to itself and is its own inverse (both members of a pair see the same position, hence the same bit)
+//@ lemma sh_pivot_range [C06, use=sh_pivot_def]: forall seed Root32, r int, n int :: {sh_pivot(seed, r, n)} 0 < n ==> 0 <= sh_pivot(seed, r, n) && sh_pivot(seed, r, n) < n
+//@ lemma sh_mod2n [C06]: forall a int, n int :: {a % n} 0 < n && 0 <= a && a < 2 * n ==> a % n == ite(a < n, a, a - n)
+//@ lemma sh_round_range [C06]: forall seed Root32, r int, n int, i int :: {sh_round(seed, r, n, i)} 0 < n && 0 <= i && i < n ==> 0 <= sh_round(seed, r, n, i) && sh_round(seed, r, n, i) < n
+//@ lemma sh_round_involution [C06]: forall seed Root32, r int, n int, i int :: {sh_round(seed, r, n, i)} 0 < n && 0 <= i && i < n ==> sh_round(seed, r, n, sh_round(seed, r, n, i)) == i
+// ranges and the two inverse laws, by induction on the number of rounds
+//@ lemma sh_fwd_range [C06, induct=k]: forall k int, seed Root32, n int, i int :: {sh_fwd(seed, n, i, k)} ktrig(k) && 0 < n && 0 <= i && i < n ==> 0 <= sh_fwd(seed, n, i, k) && sh_fwd(seed, n, i, k) < n
+//@ lemma sh_bwd_range [C06, induct=k]: forall k int, seed Root32, n int, x int :: {sh_bwd(seed, n, x, k)} ktrig(k) && 0 < n && 0 <= x && x < n ==> 0 <= sh_bwd(seed, n, x, k) && sh_bwd(seed, n, x, k) < n
+//@ lemma sh_bwd_fwd [C06, induct=k]: forall k int, seed Root32, n int, i int :: {sh_fwd(seed, n, i, k)} ktrig(k) && 0 < n && 0 <= i && i < n ==> sh_bwd(seed, n, sh_fwd(seed, n, i, k), k) == i
+//@ lemma sh_fwd_bwd [C06, induct=k]: forall k int, seed Root32, n int, x int :: {sh_bwd(seed, n, x, k)} ktrig(k) && 0 < n && 0 <= x && x < n ==> sh_fwd(seed, n, sh_bwd(seed, n, x, k), k) == x
+
+
+// PermuteIndex / UnpermuteIndex compute sh_fwd / sh_bwd (verified through innerPermuteIndex, inlined with
+// the hash function the callers pass: hashing.Hash = SHA-256). List sizes up to 2^40 (VALIDATOR_REGISTRY_LIMIT).
+//@ func innerPermuteIndex(hashFn, rounds, input, listSize, seed, dir) res
+//@   opt inline=always
+//@   use sh_pivot_def, sh_bit_def, sh_mod2n
+//@   after Hash@1 pivot_hash: result == sha256(cat(seed, Bytes1(r)))
+//@   after Uint64@1 pivot: result % listSize == sh_pivot(seed, r, listSize)
+//@   after PutUint32@1 position: flip == sh_flip(seed, r, listSize, index) && position == max(index, flip) && position < listSize
+//@   after PutUint32@1 round: sh_round(seed, r, listSize, index) == ite(sh_bit(seed, r, position) == 1, sh_flip(seed, r, listSize, index), index)
+//@   after Hash@2 source_hash: result == sha256(cat(seed, Bytes1(r), le32(max(index, sh_flip(seed, r, listSize, index)) / 256)))
+//@   after Hash@2 bit: (result[(position % 256) / 8] / pow2(position % 8)) % 2 == sh_bit(seed, r, position)
+//@   after Hash@2 unfold: ktrig(r + 1) && ktrig(r) && sh_fwd(seed, listSize, input, r + 1) == sh_round(seed, r, listSize, sh_fwd(seed, listSize, input, r)) && sh_bwd(seed, listSize, index, r + 1) == sh_bwd(seed, listSize, sh_round(seed, r, listSize, index), r)
+//@   loop 1
+//@     invariant r < rounds && index < listSize && len(buf) == 37
+//@     invariant forall b :: 0 <= b && b < 32 ==> buf[b] == seed[b]
+//@     invariant dir ==> index == sh_fwd(seed, listSize, input, r)
+//@     invariant !dir ==> sh_bwd(seed, listSize, input, rounds) == sh_bwd(seed, listSize, index, r + 1)
+
+//@ func PermuteIndex(rounds, index, listSize, seed) r
+//@   property C06 C07
+//@   use sh_pivot_def, sh_bit_def, sh_mod2n
+//@   requires 0 < listSize && listSize <= 1099511627776 && index < listSize
+//@   ensures spec: r == sh_fwd(seed, listSize, index, rounds)
+//@   ensures range: r < listSize
+
+//@ func UnpermuteIndex(rounds, index, listSize, seed) r
+//@   property C06
+//@   use sh_pivot_def, sh_bit_def, sh_mod2n
+//@   requires 0 < listSize && listSize <= 1099511627776 && index < listSize
+//@   ensures spec: r == sh_bwd(seed, listSize, index, rounds)
+//@   ensures range: r < listSize
+
 
 // BEGIN C18 generated (tools/gen_c18.py in /verif)
 // cancelled: a context cancelled before the call makes it fail; surfaced: a cancellation observed by a poll
